@@ -117,5 +117,14 @@ check("C20", "exploration",
       "the enclosing call sites, innermost first, each with its own file/line/column.",
       "Trusted: the generator's line/column bookkeeping (ground truth); call sites begin with an identifier.",
       "ground-truth oracle from the generator's source map over generated programs, under ASan", "DESIGN.md section 5 C20")
+check("C11", "exploration",
+      "3k/200k programs composed of 28 route templates over an instrumented C++ class (instance registry with ids, tags, magic word): create, "
+      "copy, alias, store in Vector/Map/attribute, capture, bind, pass by value/&/const&/*/const*/shared_ptr/shared_ptr<const>, return by "
+      "value/shared_ptr/unique_ptr, base-class and user conversions (converted temporaries), C++-held shared_ptr and std::function callbacks, "
+      "loop variables and per-iteration objects captured by closures, exception unwinding; referrers are dropped by construction and probes "
+      "expect_dead/expect_alive run after settle(); the engine is destroyed inside the case and the registry audited (exactly-once "
+      "destruction, no use after destroy, nothing alive). ASan incl. stack-use-after-return.",
+      "Trusted: the registry (single-threaded), the by-construction knowledge of when the last referrer is gone. No reference cycles.",
+      "event-log checker over an instrumented class + ASan, on generated lifetime routes", "DESIGN.md section 5 C11")
 for _p in ["C%02d" % i for i in range(2, 21) if "C%02d" % i not in CHECKS]:
     NA[_p] = "check not implemented yet in this revision (work in progress, see DESIGN.md); nothing is claimed"
